@@ -182,11 +182,13 @@ J gen_world_pair(Rng &g, uint64_t seed, const J &opts)
 	plan["groups"] = groups;
 	int npolls = (int)g.range(2, 6);
 	// which polls of cache 0 / cache 1 are reloads
-	std::vector<int> reload0((size_t)npolls + 1, 0), reload1((size_t)npolls + 1, 0);
+	int R = (int)g.below(2); // the cache that mostly reloads (the other one mostly sends deltas)
+	std::vector<std::vector<int>> rel(2, std::vector<int>((size_t)npolls + 1, 0));
 	for (int n = 1; n <= npolls; n++) {
-		reload0[(size_t)n] = g.chance(650);
-		reload1[(size_t)n] = g.chance(150);
+		rel[(size_t)R][(size_t)n] = g.chance(650);
+		rel[(size_t)(1 - R)][(size_t)n] = g.chance(150);
 	}
+	const std::vector<int> &reload0 = rel[0], &reload1 = rel[1];
 	std::vector<std::vector<int>> idx(2, std::vector<int>((size_t)npolls + 1, -1)); // script index of the answer applied at poll n
 	J caches = J::arr();
 	std::vector<J> scripts(2);
@@ -215,8 +217,8 @@ J gen_world_pair(Rng &g, uint64_t seed, const J &opts)
 		script.push(J::obj()); // initial full set
 		const std::vector<int> &rl = ci == 0 ? reload0 : reload1;
 		for (int n = 1; n <= npolls; n++) {
-			J edits = gen_edits(g, P, ci == 0 ? 5 : 8);
-			if (ci == 1 && edits.size() == 0) {
+			J edits = gen_edits(g, P, ci == R ? 5 : 8);
+			if (ci != R && edits.size() == 0) {
 				J one = J::arr();
 				one.push("add");
 				one.push(P.pfx[g.below(P.pfx.size())].json());
@@ -293,7 +295,28 @@ J gen_world_pair(Rng &g, uint64_t seed, const J &opts)
 	lat["min_ms"] = (long long)g.pick(std::vector<long long>{1, 20, 900});
 	lat["jitter_ms"] = 0;
 	plan["lat"] = lat;
-	plan["oper"] = J::arr();
+	J oper = J::arr();
+	if (g.chance(focus == "C07" ? 700 : 200)) {
+		// the operator stops the manager at the instant one socket has been handed the last byte of an answer (its thread is
+		// about to apply it, and cannot be cancelled while it does), and starts it again later
+		int who = g.chance(700) ? R : 1 - R;
+		int n = (int)g.range(1, npolls);
+		J o = J::obj();
+		o["at_ms"] = 0;
+		o["op"] = "stop";
+		J on = J::obj();
+		on["ev"] = "resp_end";
+		on["sock"] = who;
+		on["n"] = (long long)(idx[(size_t)who][(size_t)n] + 1); // one such event per answered query
+		o["on"] = on;
+		oper.push(o);
+		J o2 = J::obj();
+		o2["at_ms"] = 0;
+		o2["op"] = "start";
+		o2["delay_ms"] = (long long)g.pick(std::vector<long long>{0, 1000, 70000});
+		oper.push(o2);
+	}
+	plan["oper"] = oper;
 	J end = J::obj();
 	end["mode"] = "converge";
 	end["max_s"] = 120ll * 86400ll;
